@@ -24,11 +24,17 @@ def check(chk, thorough=False):
     chk.run('C04.a', 'R-GUARD', 'send_xfer_* only in session; SESS_TERM only in session, once, flag set before sending', lambda ob: c04a(tree, ob), floor=4)
     chk.run('C04.b', 'R-WHO', 'contact header / SESS_INIT / SESS_TERM are built and sent only from their one sender, called from the negotiated places', lambda ob: c04b(tree, ob), floor=6)
     chk.run('C04.c', 'R-NOPATH', 'no transfer is taken from the queue while terminating', lambda ob: c04c(tree, ob), floor=1)
+    chk.run('C04.c2', 'R-PAIR', 'on a received SESS_TERM every not-started bundle leaves the queue (so none can start afterwards) and is reported not sent (= C09.c)', lambda ob: _c09c(tree, ob), floor=1)
     chk.run('C04.d', 'R-GUARD', 'Transfer-Length extension goes with START only; extensions refused outside START', lambda ob: c04d(tree, ob), floor=2)
     chk.run('C04.e', 'R-CLAMP', 'every write of the send segment size is clamped by the peer segment MRU; only it sizes a segment', lambda ob: c04e(tree, ob), floor=2)
     chk.run('C04.f', 'R-FLOW', 'each XFER_ACK echoes the segment id, the flags and the length after the write', lambda ob: c04f(tree, ob), floor=2)
     chk.run('C04.g', 'R-WHO', 'transfer ids come from a counter that only increases', lambda ob: c04g(tree, ob), floor=3)
     chk.run('C04.h', 'R-SCHEMA', 'message type codes and field layouts equal RFC 9174', lambda ob: c04h(tree, ob), floor=7)
+
+
+def _c09c(tree, ob):
+    from .c09 import c09c   # c09 imports this module: resolve late
+    return c09c(tree, ob)
 
 
 def c04a(tree, ob):
